@@ -32,6 +32,13 @@ Theorem C18_stdin_agrees : forall fmt vs,
 Proof. exact stdin_agrees. Qed.
 Print Assumptions C18_stdin_agrees.
 
+(** the string entry point (stdin) and the path entry point lint the same thing unless the in-file
+    configuration scan aborts (C03) *)
+Theorem C18_modes_agree : forall (src linted : Type) (scan_ok : src -> bool) (pipeline : src -> linted) s,
+  scan_ok s = true -> lint_string_m src linted scan_ok pipeline s = lint_path_m src linted pipeline s.
+Proof. exact modes_agree. Qed.
+Print Assumptions C18_modes_agree.
+
 (** fix: exit 1 exactly when a violation that cannot be auto-fixed was found; nothing reported -> nothing
     written; otherwise every linted file is written with its own fixed text *)
 Theorem C18_fix : forall fmt files code writes,
